@@ -2147,3 +2147,78 @@ def k_unitset_simplify(E, tier):
         rec.add("a cancelling path was explored", {"verdict": "inconclusive", "per_solver": {}, "time_s": 0})
     rec.notes.append("one outer and one inner loop iteration from an arbitrary (ap, bp) in [-127,127]^2 and an arbitrary factor f; powi is uninterpreted")
     return rec
+
+
+def k_if_dispatch(E, tier):
+    """C17: `@if` (stylesheet/rule/mixin level, handle_item): the condition is evaluated once and the
+    `@if` body runs exactly when the value is truthy (neither false nor null), the `@else` body otherwise."""
+    cssv = E.load_enum("css/value.rs", "Value", "css::value::Value")
+    items = E.load_enum("sass/item.rs", "Item", "sass::item::Item")
+    f = E.find(name="handle_item")
+    rec = Rec("handle_item (@if arm)", f, E)
+    ctx = E.ctx()
+    cond = sym.Opaque("sass::value::Value", "cond", ctx)
+    do_if = sym.Opaque("ItemBody", "do_if", ctx)
+    do_else = sym.Opaque("ItemBody", "do_else", ctx)
+    item = sym.Agg("sass::item::Item", "IfStatement", {"0": cond, "1": do_if, "2": do_else}, items.index("IfStatement"))
+    val = sym.Opaque("css::value::Value", "val", ctx)
+
+    def m_evaluate(ex, st, c, a, d):
+        ok = st.fork()
+        err = st.fork()
+        e = sym.Event("evaluate", a, val, len(st.pc))
+        e.rargs = [ex.resolve_ref(st, x) for x in a]
+        ok.events.append(e)
+        return [(ok, sym.Agg(d, "Ok", {"0": val}, 0)), (err, sym.Agg(d, "Err", {"0": sym.Opaque("Error", "e", ctx)}, 1))]
+
+    def m_body(name):
+        def h(ex, st, c, a, d):
+            ok = st.fork()
+            err = st.fork()
+            e = sym.Event(name, a, None, len(st.pc))
+            e.rargs = [ex.resolve_ref(st, x) for x in a]
+            ok.events.append(e)
+            return [(ok, sym.Agg(d, "Ok", {"0": sym.Unit()}, 0)), (err, sym.Agg(d, "Err", {"0": sym.Opaque("Error", "e", ctx)}, 1))]
+        return h
+
+    models = [(r"^sass::value::Value::evaluate$", m_evaluate), (r"^check_body$", m_body("check_body")),
+              (r"^handle_body::<", m_body("handle_body")), (r"^handle_body$", m_body("handle_body"))] + BASE_MODELS
+    ex = sym.Executor(ctx, models=models, inline=[r"^css::value::Value::is_true$"], feasibility=E.feasibility(ctx), max_paths=4000)
+    paths = [p for p in ex.run(f, [sym.Ref("val", item), sym.Opaque("&mut dyn CssDestination", "dest", ctx),
+                                   sym.Opaque("ScopeRef", "scope", ctx), sym.Opaque("&mut Context", "fctx", ctx)]) if p.status == "return"]
+    rec.paths = len(paths)
+    truthy = _truthy_term(E, ctx, val)
+    seen = set()
+    for i, p in enumerate(paths):
+        evs = [e for e in p.events if e.callee in ("evaluate", "handle_body", "check_body")]
+        ev_eval = [e for e in evs if e.callee == "evaluate"]
+        hb = [e for e in evs if e.callee == "handle_body"]
+        others = sorted({re.sub(r"::<.*", "", e.callee) for e in p.events
+                         if e.callee not in ("evaluate", "handle_body", "check_body", "drop") and not e.callee.endswith("as Clone>::clone")})
+        if not ev_eval:
+            continue  # condition evaluation failed: error propagated
+        if len(ev_eval) != 1 or ev_eval[0].rargs[0] is not cond:
+            rec.add("path %d: the condition is evaluated exactly once" % i, {"verdict": "violated", "per_solver": {"structural": "events"}, "time_s": 0})
+            continue
+        if not hb:
+            continue  # check_body rejected the body
+        if len(hb) != 1:
+            rec.add("path %d: one body is handled (shape not recognised)" % i, {"verdict": "inconclusive", "per_solver": {}, "time_s": 0})
+            continue
+        which = "if" if hb[0].rargs[0] is do_if else ("else" if hb[0].rargs[0] is do_else else None)
+        if which is None:
+            rec.add("path %d: the handled body is the @if or the @else body (shape not recognised)" % i, {"verdict": "inconclusive", "per_solver": {}, "time_s": 0})
+            continue
+        seen.add(which)
+        want = truthy if which == "if" else "(not %s)" % truthy
+        r = E.decide(ctx, p.pc + ["(not %s)" % want], model_names=[val.discriminant().term])
+        extra = (" [other calls on this path: %s]" % others) if others else ""
+        rec.add("path %d: the @%s body runs only when the condition value is %s%s" % (i, which, "truthy" if which == "if" else "false or null", extra), r,
+                {"lift": "if", "variants": cssv})
+        # the decision must be a function of the value's kind alone
+        dep = [o for o in others if not o.startswith("<ScopeRef")]
+        rec.add("path %d: the decision consults nothing but the truthiness of the value" % i,
+                {"verdict": "holds" if not dep else "violated", "per_solver": {"structural": str(dep)[:120]}, "time_s": 0})
+    if seen != {"if", "else"}:
+        rec.add("both branches are reachable (%s)" % sorted(seen), {"verdict": "inconclusive", "per_solver": {}, "time_s": 0})
+    return rec
